@@ -257,7 +257,14 @@ def _explicit_patterns(e):
     for k in range(e.num_patterns()):
         p = e.pattern(k)
         for t in p.children():
-            out.append(t)
+            ts = z3.simplify(t)
+            if ts.eq(t):
+                out.append(t)
+            else:
+                # the assertions were simplified (e.g. seq.nth -> ite(.., nth_i, nth_u)): use the indexing sub-terms of
+                # the simplified pattern
+                sub = [pt for pt, _vs in _patterns(ts, e.num_vars())]
+                out.extend(sub if sub else [t])
     return out
 
 
